@@ -27,7 +27,8 @@ Definition horner (base : Z) (ds : list Z) : Z :=
 Fixpoint digits_rev (base : Z) (fuel : nat) (v : Z) : list Z :=
   match fuel with
   | O => []
-  | S f => if v <=? 0 then [] else v mod base :: digits_rev base f (v / base)
+  | S f => if v <=? 0 then [] else
+           let '(q, r) := Z.div_eucl v base in r :: digits_rev base f q
   end.
 (* the shortest digit string of v (empty for 0) *)
 Definition digits (base v : Z) : list Z :=
@@ -153,4 +154,77 @@ Fixpoint words_upto (syms : list (list Z)) (k : nat) : list (list Z) :=
   match k with
   | O => [[]]
   | S k' => words_upto syms k' ++ words syms k
+  end.
+
+(* ---- the property, decided on observed results *)
+Definition not_in_alphabet (c : Z) : bool :=
+  match digit_of_char c with None => true | Some _ => false end.
+
+(* Encode(bs) = obs, and Decode(obs) observed (packed) = rt: obs is text over the
+   alphabet whose base-58 value is the big-endian value of bs, with exactly one
+   leading '1' per leading zero byte (which makes it the only such text), and it
+   decodes back to bs (except that Encode([]) = "" does not decode) *)
+Definition enc_prop (c : list Z * list Z * Z) : bool :=
+  let '(bs, obs, rt) := c in
+  match digits_of_text obs with
+  | Some ds =>
+      (horner 58 ds =? horner 256 bs) && Nat.eqb (lead_zeros ds) (lead_zeros bs) &&
+      (rt =? match bs with [] => -1 | _ => pack_outcome (Ok bs) end)
+  | None => false
+  end.
+
+Definition encx_prop (c : list Z * list Z) : bool :=
+  let '(bs, obs) := c in
+  match digits_of_text obs with
+  | Some ds => (horner 58 ds =? horner 256 bs) && Nat.eqb (lead_zeros ds) (lead_zeros bs)
+  | None => false
+  end.
+
+(* Decode(text) observed (packed) = obs: fails exactly on "" and on text with a
+   byte outside the alphabet; otherwise one zero byte per leading '1' followed
+   by the shortest big-endian form of the base-58 value *)
+Definition decx_prop (c : list Z * Z) : bool :=
+  let '(text, obs) := c in
+  match text with
+  | [] => obs =? -1
+  | _ =>
+      match digits_of_text text with
+      | None => (obs =? -2) && existsb not_in_alphabet text
+      | Some ds =>
+          let v := horner 58 ds in
+          negb (existsb not_in_alphabet text) &&
+          (obs =? 256 ^ Z.of_nat (lead_zeros ds + List.length (digits 256 v)) + v)
+      end
+  end.
+(* ... and Encode of the decoded bytes = reenc gives the text back (canonical) *)
+Definition dec_prop (c : list Z * Z * list Z) : bool :=
+  let '(text, obs, reenc) := c in
+  decx_prop (text, obs) && ((obs <? 0) || eqb_zl reenc text).
+
+(* symbol sets of the exhaustive sweeps *)
+Fixpoint zupto (lo : Z) (k : nat) : list Z :=
+  match k with O => [] | S k' => lo :: zupto (lo + 1) k' end.
+Definition byte_syms : list (list Z) := map (fun b => [b]) (zupto 0 256).
+Definition dec_syms : list (list Z) :=
+  map (fun c => [c]) alphabet ++ [[48]; [79]; [73]; [108]; [32]; [128]; [195; 169]].
+
+(* DecodeBase58Address(text) observed = obs; restr = String() of the decoded
+   address; digest = sha256 of the first 21 decoded bytes (supplied as data) *)
+Definition addr_valid_text (digest : list Z) (text : list Z) : bool :=
+  match b58dec text with
+  | Ok b =>
+      Nat.eqb (List.length b) 25 &&
+      match skipn 20 b with
+      | v :: _ =>
+          (v =? 0) && eqb_zl (addr_encode (fun _ => digest) {| a_version := v; a_key := firstn 20 b |}) text
+      | [] => false
+      end
+  | Err _ => false
+  end.
+Definition addr_prop (c : list Z * list Z * outcome address * list Z) : bool :=
+  let '(text, digest, obs, restr) := c in
+  match obs with
+  | Ok a => (a_version a =? 0) && Nat.eqb (List.length (a_key a)) 20 && eqb_zl restr text &&
+            eqb_zl (addr_encode (fun _ => digest) a) text
+  | Err _ => negb (addr_valid_text digest text)
   end.
